@@ -51,7 +51,7 @@ static bool run_killed(Scn &s, int tfd, long k, int partial) {
 
 static void prop(Ctx &c) {
     Scn s;
-    gen::ZFileOpts o; o.max_chunks = c.tier ? 12 : 8; o.max_chunk = c.chance(2, 3) ? 40 : 300; o.allow_empty = false;
+    gen::ZFileOpts o; o.max_chunks = c.tier ? 12 : 8; o.max_chunk = c.chance(2, 3) ? 40 : 300; o.allow_empty = false; o.big_rate = 6;
     gen::ZParams qb = gen::zparams(c, o); s.B = gen::zfile_build(c, qb); size_t n = s.B.nchunks();
     s.haveA = c.boolean(); std::string adesc = "absent";
     if (s.haveA) { gen::ZParams qa = qb; qa.by_ref = false; size_t ne = 1 + c.draw(2); for (size_t e = 0; e < ne; e++) { if (!qa.chunks.empty() && c.boolean()) qa.chunks[c.pick(qa.chunks.size())] = gen::chunk_content(c, o.max_chunk); else qa.chunks.insert(qa.chunks.begin() + c.draw(qa.chunks.size()), gen::chunk_content(c, o.max_chunk)); } s.A = gen::zfile_build(c, qa); adesc = "edited"; }
